@@ -20,7 +20,7 @@ func newSim(cfg Cfg, seed int64) *Sim {
 		roles: map[uint64]string{}, entIDs: map[any]int{}, needProceed: map[string]bool{}, removed: map[string]int{},
 		firstTx: map[string][]byte{}, want: map[string][]byte{}, gated: true}
 	n := len(cfg.Xid)
-	s.started, s.retd, s.ctxDone = make([]bool, n), make([]bool, n), make([]bool, n)
+	s.started, s.retd, s.ctxDone, s.ncalls = make([]bool, n), make([]bool, n), make([]bool, n), make([]int, n)
 	return s
 }
 
@@ -39,11 +39,11 @@ func (s *Sim) boot() {
 	}
 	if s.cfg.V4 {
 		a := newAPI4(s, s.conn)
-		s.conn.dest = a.dest.String()
+		s.conn.dest = a.dest
 		s.api = a
 	} else {
 		a := newAPI6(s, s.conn)
-		s.conn.dest = a.dest.String()
+		s.conn.dest = a.dest
 		s.api = a
 	}
 	synctest.Wait()
@@ -55,7 +55,7 @@ func (st step) name() string { var n string; json.Unmarshal(st[0], &n); return n
 func (st step) int(i int) int { var n int; json.Unmarshal(st[i], &n); return n }
 func (st step) str(i int) string { var n string; json.Unmarshal(st[i], &n); return n }
 
-var gateOf = map[string]string{"SendLock": "SendPreLock", "Transmit": "SendPreTx", "Proceed": "Wake", "CancelDone": "CancelPre",
+var gateOf = map[string]string{"SendLock": "SendPreLock", "Transmit": "SendPreTx", "TransmitFail": "SendPreTx", "Proceed": "Wake", "CancelDone": "CancelPre",
 	"CancelLock": "CancelPreLock"}
 
 // follow replays a TLC behaviour (sequence of Client.tla action labels) as scheduler choices.
@@ -65,12 +65,21 @@ func (s *Sim) follow(steps []step) (followed int, diverged string) {
 		n := st.name()
 		switch n {
 		case "Start":
-			if s.started[st.int(1)-1] {
+			if s.started[st.int(1)-1] && !s.retd[st.int(1)-1] {
 				return i, "already started"
 			}
-			s.start(st.int(1))
-		case "SendLock", "Transmit", "Proceed", "CancelDone", "CancelLock":
+			s.start(st.int(1)) // a second Start of a caller that has returned is its next call ("Again" in the model)
+		case "Again":
+			if !s.retd[st.int(1)-1] {
+				return i, "Again: the previous call has not returned"
+			}
+		case "SendLock", "Transmit", "TransmitFail", "Proceed", "CancelDone", "CancelLock":
 			role := "c" + strconv.Itoa(st.int(1))
+			if n == "TransmitFail" && s.closeState == "" {
+				s.conn.mu.Lock()
+				s.conn.failNext[role] = true // the model chose a failing write
+				s.conn.mu.Unlock()
+			}
 			if s.parkedAt(role) != gateOf[n] || !s.releasable(role) {
 				return i, fmt.Sprintf("%s: %s parked at %q", n, role, s.parkedAt(role))
 			}
@@ -123,7 +132,8 @@ func (s *Sim) randomRun(ndgram int, urgent bool, wantClose, wantCtx bool) {
 	kinds := []string{"good", "rej", "rej", "undec", "wrongop", "wronghw", "good"}
 	xids := append([]int{}, s.cfg.Xid...)
 	xids = append(xids, 99)
-	injected := 0
+	injected, longTicks := 0, 0
+	maxCalls := 1 + s.rng.Intn(3)
 	// planned env actions
 	for step := 0; step < 400; step++ {
 		type choice struct {
@@ -137,6 +147,8 @@ func (s *Sim) randomRun(ndgram int, urgent bool, wantClose, wantCtx bool) {
 		for c := range s.started {
 			if !s.started[c] {
 				ch = append(ch, choice{"start", c + 1})
+			} else if s.retd[c] && s.ncalls[c] < maxCalls && s.closeState == "" {
+				ch = append(ch, choice{"start", c + 1}) // the caller calls again on the same client
 			} else if wantCtx && !s.retd[c] && !s.ctxDone[c] && s.rng.Intn(12) == 0 {
 				ch = append(ch, choice{"ctx", c + 1})
 			}
@@ -147,10 +159,18 @@ func (s *Sim) randomRun(ndgram int, urgent bool, wantClose, wantCtx bool) {
 		if wantClose && s.closeState == "" && s.rng.Intn(25) == 0 {
 			ch = append(ch, choice{"close", 0})
 		}
+		if s.cfg.WFault && s.rng.Intn(6) == 0 {
+			ch = append(ch, choice{"link", 0}) // the link goes down / comes back
+		}
 		internal := len(s.releasableRoles()) > 0
 		if !urgent || !internal {
 			if !s.allReturned() || injected < ndgram {
 				ch = append(ch, choice{"tick", 0})
+			}
+			if !urgent && longTicks < 2 && (s.loopHolds || s.rng.Intn(20) == 0) && !s.allReturned() {
+				// a scheduling delay of seconds while goroutines sit where they are (and, often, while the receive
+				// loop holds the lock): nobody is entitled to give up on anybody
+				ch = append(ch, choice{"longtick", 0}, choice{"longtick", 0})
 			}
 		}
 		if len(ch) == 0 {
@@ -169,6 +189,15 @@ func (s *Sim) randomRun(ndgram int, urgent bool, wantClose, wantCtx bool) {
 			s.closeStart()
 		case c.kind == "tick":
 			s.tick()
+		case c.kind == "longtick":
+			longTicks++
+			for k := 30 + s.rng.Intn(300); k > 0 && s.crashed == ""; k-- {
+				s.tick()
+			}
+		case c.kind == "link":
+			s.conn.mu.Lock()
+			s.conn.down = !s.conn.down
+			s.conn.mu.Unlock()
 		default:
 			s.release(c.kind[4:])
 		}
@@ -176,6 +205,9 @@ func (s *Sim) randomRun(ndgram int, urgent bool, wantClose, wantCtx bool) {
 			return
 		}
 	}
+	s.conn.mu.Lock()
+	s.conn.down = false
+	s.conn.mu.Unlock()
 }
 
 // freeRun: all callers are released from a barrier at the same virtual instant and run truly in
@@ -374,6 +406,8 @@ func TestSim(t *testing.T) {
 		myid := id
 		fmt.Printf("SIM %d %s\n", myid, tag)
 		cfg.CloseErr = (uint64(myid)*2654435761)>>13%3 == 0
+		cfg.ErrKind = int((uint64(myid)*2654435761)>>17) % 3 // what a failed write returns
+		cfg.Dest = int((uint64(myid)*2654435761)>>5) % 4     // the properties hold for every destination
 		cfg.Log = int((uint64(myid)*2654435761)>>9) % 4 // the properties hold for every client configuration, logging options included
 		synctest.Test(t, func(t *testing.T) {
 			s := newSim(cfg, seed*1000003+int64(myid))
@@ -442,6 +476,7 @@ func TestSim(t *testing.T) {
 		urgent := mode == "c11" || i%3 == 0
 		cfg.Urgent = urgent
 		cfg.Mode = "random"
+		cfg.WFault = rng.Intn(3) == 0
 		if mode == "c11" {
 			cfg.Tries = []int{0, 1, 2, 3, 4, -1}[rng.Intn(6)]
 		}
@@ -492,6 +527,27 @@ func TestSim(t *testing.T) {
 						kk := k
 						runOne(cfg, "grid", func(s *Sim) { s.gridRun(kk, 1) })
 						stats["grid_runs"]++
+					}
+				}
+			}
+			// call histories: the first call is answered during try k1 (0: never), then the same caller calls again on the
+			// same client and is answered during try k2 (0: never); the second call's schedule starts from the configured timeout
+			for _, T := range []int{1, 3} {
+				for k1 := 0; k1 <= 3; k1++ {
+					for _, k2 := range []int{0, 2} {
+						if envInt("VH_GRID", 1) == 0 && T > 1 && k1 != 2 {
+							continue
+						}
+						cfg := Cfg{T: T, Tries: 3, BufCap: 5, V4: v4, Timed: true, Urgent: true, Mode: "history", Xid: []int{7}}
+						a, b := k1, k2
+						runOne(cfg, "history", func(s *Sim) {
+							s.gridRun(a, 1)
+							if s.crashed == "" && s.allReturned() {
+								s.tick()
+								s.gridRun(b, 1)
+							}
+						})
+						stats["history_runs"]++
 					}
 				}
 			}
